@@ -108,6 +108,13 @@ def _cases(tier, seed):
             cs.append({'scen': 'tt_scalar', 's': s})
     for op in ('add', 'mul', 'rmul', 'sub'):
         cs.append({'scen': 'tt_scalar', 's': {'op': op, 'N': [2, 3], 'R': [1, 2, 1], 'dtype': 'complex128', 'skind': 'complex'}})
+    # concrete python floats that float32 cannot represent: the scalar must reach the cores in double precision
+    for fv in (0.1, 1.0000000596046448, -7.77):
+        for op in ('add', 'radd', 'sub', 'rsub', 'mul', 'rmul', 'div'):
+            for dt in ('float64', 'complex128'):
+                if dt == 'complex128' and op not in ('mul', 'div', 'add'):
+                    continue
+                cs.append({'scen': 'tt_scalar', 's': {'op': op, 'N': [2, 3], 'R': [1, 2, 1], 'dtype': dt, 'skind': 'pyfloat', 'fval': fv}})
     # a complex python scalar is a documented operand of `*`: real operands are promoted as in dense arithmetic
     for dt in ('float64', 'float32'):
         for op in ('mul', 'rmul'):
@@ -128,7 +135,7 @@ def _cases(tier, seed):
             if M:
                 s['M'] = M
             cs.append({'scen': 'tt_full', 's': s})
-    for N in ([3], [2, 3], [1, 2, 3], [2, 1], [1, 1, 1]):
+    for N in ([3], [2, 3], [1, 2, 3], [2, 1], [1, 1, 1], [2, 2, 3], [3, 2, 2, 3]):
         for kind in ('ones', 'zeros', 'eye', 'rank1', 'meshgrid'):
             for dt in ('float64', 'float32'):
                 cs.append({'scen': 'tt_factories', 's': {'kind': kind, 'N': N, 'dtype': dt}})
